@@ -85,7 +85,12 @@ public:
 
     const SpaceIndexType spaceSystem;
 
-    explicit RecKernel(const SpacialConfiguration& inConfiguration) : spaceSystem(inConfiguration){}
+    // the configuration this kernel was constructed from (the top tree builds its kernel from a larger, virtual box)
+    long cfgHeight = 0;
+    RealType cfgWidth0 = 0, cfgCenter0 = 0;
+
+    explicit RecKernel(const SpacialConfiguration& inConfiguration) : spaceSystem(inConfiguration),
+        cfgHeight(inConfiguration.getTreeHeight()), cfgWidth0(inConfiguration.getBoxWidths()[0]), cfgCenter0(inConfiguration.getBoxCenter()[0]){}
     RecKernel(const RecKernel&) = default;
     RecKernel(RecKernel&&) = default;
 
